@@ -169,37 +169,41 @@ void h_destroy(void) {
     if (g_mt_lock_calls == 0) CANARY("destroy: level NONE"); else CANARY("destroy: traced");
 }
 
-/* aws_mem_tracer_new: the real aws_mem_acquire_many (source/allocator.c, linked in; its two va_arg loops run `count` == 2
- * times: complete unwinding) carves tracer and allocator out of one block of the bookkeeping allocator;
- * s_alloc_tracer_init and aws_mem_acquire are replaced by their contracts. */
-void h_new(void) {
-    struct aws_allocator *inner = nondet_ptr();
-    enum aws_mem_trace_level level = (enum aws_mem_trace_level)(nondet_u8() % 3);
-    size_t fps = nondet_size_t();
+
+/* ---- dump ---- */
+void h_dump(void) {
+    struct aws_allocator *allocator;
     MT_START();
-    struct aws_allocator *ta = aws_mem_tracer_new(inner, nondet_ptr(), level, fps);
-    __CPROVER_assert(ta != NULL && __CPROVER_rw_ok(ta, sizeof(*ta)), "new: a usable allocator object");
-    __CPROVER_assert(ta->mem_acquire == s_trace_mem_acquire && ta->mem_release == s_trace_mem_release &&
-                     ta->mem_realloc == s_trace_mem_realloc && ta->mem_calloc == s_trace_mem_calloc,
-                     "new: vtable is the tracing one");
-    struct alloc_tracer *tr = ta->impl;
-    __CPROVER_assert(tr != NULL && __CPROVER_rw_ok(tr, sizeof(*tr)), "new: impl is a tracer object");
-    __CPROVER_assert(__CPROVER_POINTER_OFFSET(tr) == 0, "new: tracer is the start of the block (destroy releases it)");
-    __CPROVER_assert(__CPROVER_same_object(tr, ta) &&
-                     __CPROVER_POINTER_OFFSET(ta) >= sizeof(struct alloc_tracer), "new: allocator object lies behind the tracer");
-    __CPROVER_assert(tr->traced_allocator == inner, "new: wraps the given allocator");
-    __CPROVER_assert(tr->level == ((level == AWS_MEMTRACE_STACKS && !g_mt_bt_avail) ? AWS_MEMTRACE_BYTES : level),
-                     "new: level as requested (STACKS clamped without backtrace)");
-    if (tr->level != AWS_MEMTRACE_NONE) {
-        __CPROVER_assert(MT_ALLOCATED(tr) == 0 && g_mt_sum == 0 && g_mt_count == 0 && !g_mt_present,
-                         "new: nothing outstanding, table empty");
-        __CPROVER_assert(g_mt_allocs == &tr->allocs && g_mt_mutex == &tr->mutex, "new: tables registered");
-        CANARY("new: traced");
-    } else {
-        CANARY("new: level NONE");
-    }
-    if (tr->level == AWS_MEMTRACE_STACKS) {
-        __CPROVER_assert(tr->frames_per_stack >= 1 && tr->frames_per_stack <= 128 && g_mt_stacks == &tr->stacks, "new: depth 1..128");
-        CANARY("new: level STACKS");
-    }
+    aws_mem_tracer_dump(allocator);
+    if (g_mt_lock_calls == 0) CANARY("dump: nothing to report (level NONE or nothing outstanding)");
+    if (g_mt_lock_calls == 1 && g_mt_foreach_calls == 1) CANARY("dump: level BYTES");
+    if (g_mt_lock_calls == 1 && g_mt_foreach_calls == 5) CANARY("dump: level STACKS");
+}
+
+void h_cb_insert_allocs(void) {
+    void *context = nondet_ptr();
+    struct aws_hash_element *item;
+    MT_START();
+    g_mt_pq = nondet_ptr();
+    int r = s_insert_allocs(context, item);
+    CANARY("insert_allocs returned");
+}
+
+void h_cb_insert_stacks(void) {
+    void *context = nondet_ptr();
+    struct aws_hash_element *item;
+    MT_START();
+    g_mt_pq = nondet_ptr();
+    int r = s_insert_stacks(context, item);
+    CANARY("insert_stacks returned");
+}
+
+void h_cb_collect_stack_stats(void) {
+    void *context = nondet_ptr();
+    struct aws_hash_element *item;
+    MT_START();
+    g_mt_stack_info = nondet_ptr();
+    int r = s_collect_stack_stats(context, item);
+    if (g_mt_tot_count == 0) CANARY("collect_stack_stats: first allocation of a stack");
+    if (g_mt_tot_count > 0) CANARY("collect_stack_stats: further allocation of a stack");
 }
